@@ -39,12 +39,12 @@ class RspHandler:
             res = self._ack_queue.get(timeout=0.5)
             while res != "+":
                 self.logger.warning("discards %s", res)
+                if retries == 0:
+                    raise ValueError("retry fail")
+                retries -= 1
                 self.logger.debug("resend-GDB> %s", data)
                 self.send(wire_data)
                 res = self._ack_queue.get(timeout=0.5)
-                retries -= 1
-                if retries == 0:
-                    raise ValueError("retry fail")
 
     def send(self, msg):
         """Send ascii data to target"""
